@@ -7,21 +7,23 @@ for n in $names; do
   D=/verif/seeded/$n
   git -C /repo checkout -q -- . ; git -C /repo apply $D/patch.diff || { echo "[$n] does not apply"; continue; }
   caught=""; detail=""
+  tgt=${n%%-*}
   for c in C01 C02 C03 C04 C05 C06 C07 C08 C09 C10 C11 C12 C13 C14 C15 C16 C17 C18 C19 C20; do
-    o=$(/verif/run.sh quick $c 2>&1); rc=$?
+    # the change's own check runs the full quick tier; with OTHERS_SCALE set the other nineteen run that fraction of it
+    if [ "$c" = "$tgt" ] || [ -z "${OTHERS_SCALE:-}" ]; then o=$(/verif/run.sh quick $c 2>&1); rc=$?; else o=$(VERIF_SCALE=$OTHERS_SCALE /verif/run.sh quick $c 2>&1); rc=$?; fi
     if [ $rc -eq 1 ]; then caught="$caught $c"; detail="$detail$c: $(echo "$o" | grep -E '^clause' | head -1 | cut -c1-100); ";
     elif [ $rc -ne 0 ]; then detail="$detail$c: rc=$rc $(echo "$o" | grep -E 'INCONCLUSIVE|BUILD' | head -1 | cut -c1-160); "; fi
   done
   git -C /repo checkout -q -- .
   rm -f /verif/evidence/replays/*.json
   echo "[$n] caught by:$caught"
-  python3 - "$D" "$caught" "$detail" <<'PY'
+  python3 - "$D" "$caught" "$detail" "${OTHERS_SCALE:-1}" <<'PY'
 import json,sys,re
-D,caught,detail=sys.argv[1:4]
+D,caught,detail,oscale=sys.argv[1:5]
 m=json.load(open(D+'/meta.json'))
 tgt=m['breaks_property']
 mm=re.search(re.escape(tgt)+r': clause: ([^;]*);',detail)
-m['ran']={"how":"git -C /repo apply patch.diff; /verif/run.sh quick <each of C01..C20>; git -C /repo checkout -- .","tier":"quick",
+m['ran']={"how":"git -C /repo apply patch.diff; /verif/run.sh quick <each of C01..C20>; git -C /repo checkout -- .","tier":"quick","other_checks_scale":oscale,
  "checks":[f"C{i:02d}" for i in range(1,21)],"caught_by":caught.split(),"detail":detail,"target_clause":('`'+mm.group(1).strip()+'`') if mm else ''}
 json.dump(m,open(D+'/meta.json','w'),indent=1,ensure_ascii=False)
 PY
